@@ -205,7 +205,7 @@ def tlc(module, cfg=None, *, workers=4, env=None, timeout=1800, simulate=None, c
     return r
 
 
-def apalache(module, inv, timeout=300):
+def apalache(module, inv, timeout=300, init="Init", length=0):
     """symbolic check Init => inv (length 0) of /verif/spec/<module>.tla with Apalache; returns "NoError" (proved for all values
     of the variables), "Error" (refuted: a counterexample exists) or "inconclusive: ..." (tool missing, timeout, unknown)"""
     exe = shutil.which("apalache-mc")
@@ -217,7 +217,7 @@ def apalache(module, inv, timeout=300):
     t0 = time.time()
     try:
         import signal
-        p = subprocess.Popen([exe, "check", "--init=Init", "--inv=" + inv, "--length=0", "--out-dir=" + out_dir,
+        p = subprocess.Popen([exe, "check", "--init=" + init, "--inv=" + inv, "--length=%d" % length, "--out-dir=" + out_dir,
                               "--run-dir=" + os.path.join(out_dir, "run"), module + ".tla"],
                              cwd=SPEC, env=e, stdout=subprocess.PIPE, stderr=subprocess.STDOUT, text=True, start_new_session=True)
         try:
@@ -236,13 +236,13 @@ def apalache(module, inv, timeout=300):
     return verdict, time.time() - t0
 
 
-def apalache_suite(rep, module, invs, note, timeout=600):
+def apalache_suite(rep, module, invs, note, timeout=600, length=0):
     """the clauses of <module> for ALL values of its variables (symbolic); outcomes go to the evidence; a refuted clause means
     the specification itself is wrong (machinery failure); an inconclusive run (tool missing, timeout) is recorded and tolerated:
     the symbolic instances are an addition to the TLC instances, which every check runs anyway"""
     from concurrent.futures import ThreadPoolExecutor
     with ThreadPoolExecutor(max_workers=4) as ex:
-        verdicts = list(ex.map(lambda i: apalache(module, i, timeout=timeout), invs))
+        verdicts = list(ex.map(lambda i: apalache(module, i, timeout=timeout, length=length), invs))
     rep.extra.setdefault("apalache_unbounded", {})[module] = {i: {"outcome": v, "wall_s": round(w, 1)} for i, (v, w) in zip(invs, verdicts)}
     for i, (v, _w) in zip(invs, verdicts):
         if v == "Error":
